@@ -73,7 +73,10 @@ class Encoder:
         info = c.vars.get(name, {})
         v = self.zvar(name)
         kind = info.get("kind")
-        if name in c.inv_def:
+        if name in c.pexp:
+            self.used.add(c.pexp[name])
+            out.append(v == 1 + self.zvar(c.pexp[name]))
+        elif name in c.inv_def:
             out.append(v * self.term(c.inv_def[name]) == 1)
         elif name in c.sqrt_def:
             out.append(v * v == self.term(c.sqrt_def[name]))
@@ -291,6 +294,8 @@ def _closure_vars(s):
         if n in seen:
             continue
         seen.add(n)
+        if n in ctx.pexp:
+            todo.append(ctx.pexp[n])
         for d in (ctx.inv_def, ctx.exp_def, ctx.sqrt_def, ctx.log_def):
             if n in d:
                 todo.extend(d[n].variables())
